@@ -211,7 +211,7 @@ class Sustain(Constraint):
     @staticmethod
     def apply(block: MultiCrossBlockRepeat, backend_request: BackendRequest) -> None:
         iffs = []
-        for f in block.design:
+        for f in block.act_design:
             sustain_count = block.sustain_count(f)
             for l in f.levels:
                 varss = block.build_variable_lists((f, cast(Union[SimpleLevel, DerivedLevel], l)), None)
